@@ -151,6 +151,15 @@ CHECKS["C07"] = dict(
     design_ref="DESIGN.md section 5, C07",
 )
 
+E3_NOTE = "Trusted: the vsched scheduler's channel/timer semantics (differential self-tests run before every exploration) and the source rewriter (construct inventory in the evidence; exits 2 on anything it cannot translate); the simulated kernel; OS-blocking reads are bracketed as external operations completed only by harness actions."
+CHECKS["C18"] = dict(
+    engine=E3,
+    technique="stateless exploration of all thread schedules (iterative preemption bounding 0,1,2 with global-state-key pruning) of the real PFCP loop, periodic-report server, ticker goroutines and peers over the real gtp5g driver and a simulated kernel, with the two bounded queues scaled to virtual capacities 1..3; deadlock = no enabled transition while a thread is blocked in a send, identified by its wait-for cycle",
+    text="Model checking of the implementation under a controlled scheduler: every schedule within the preemption bound of each scaled scenario (bulk re-association / deletion / establishment against ticks, report batches and a heartbeat) is executed on the rewritten real code; a schedule ending with a thread blocked forever in a send is a wedge, and at the end of every other schedule each request must have its response. The known loop<->periodic-server cycle is reproduced on every run and recorded; any other cycle or stall fails the check.",
+    note=E3_NOTE + " Scaled capacities stand for the real 512/128 (parameter map in DESIGN.md); data-plane latency is not modelled.",
+    design_ref="DESIGN.md section 5, C18",
+)
+
 NOT_YET = "check not built yet (work in progress in this round; design in DESIGN.md section 5)"
 
 def main():
